@@ -68,10 +68,22 @@ func (f *Frame) exec(instr ssa.Instruction, g *Term) {
 		}
 		e.panicVC(msg, in.Pos(), g)
 	case *ssa.RunDefers:
+		// leaving a recovering extent (see recExtent): its deferred closures run with recover() armed
+		var ext *recExtent
+		if n := len(e.recoverStack); n > 0 && e.recoverStack[n-1].frame == f {
+			ext = e.recoverStack[n-1] // (popped when the frame ends: a function has one RunDefers per return site)
+		}
 		for i := len(f.defers) - 1; i >= 0; i-- {
 			d := f.defers[i]
 			dg := And(g, d.g)
 			if dg.IsFalse() {
+				continue
+			}
+			if ext != nil && d.recovers {
+				prev, prevD := e.runningRecover, e.recoverDepth
+				e.runningRecover, e.recoverDepth = ext, e.depth+1
+				e.callValue(d.fv, d.args, dg, in.Pos(), nil)
+				e.runningRecover, e.recoverDepth = prev, prevD
 				continue
 			}
 			if d.bi != nil {
@@ -92,6 +104,24 @@ func (f *Frame) exec(instr ssa.Instruction, g *Term) {
 			d.bi = bi
 		} else {
 			d.fv = f.get(in.Call.Value)
+			if e.modelRecover && !in.Call.IsInvoke() {
+				var dfn *ssa.Function
+				switch v := in.Call.Value.(type) {
+				case *ssa.MakeClosure:
+					dfn, _ = v.Fn.(*ssa.Function)
+				case *ssa.Function:
+					dfn = v
+				}
+				if dfn != nil && dfn.Blocks == nil && dfn.Pkg != nil {
+					dfn.Pkg.Build()
+				}
+				if directlyRecovers(dfn) {
+					d.recovers = true
+					if n := len(e.recoverStack); n == 0 || e.recoverStack[n-1].frame != f {
+						e.recoverStack = append(e.recoverStack, &recExtent{frame: f, acc: TS.False})
+					}
+				}
+			}
 		}
 		f.defers = append(f.defers, d)
 	case *ssa.Go:
